@@ -51,8 +51,8 @@ def removal_nests(fn):
             if bi is None or bj is None:
                 ok, why = False, f"loop domains `{txt(il.iter)}` / `{txt(jl.iter)}` are not range(N) / range(i+1, N)"
             else:
-                N1, N2 = rules.term_of(bi["n"]), rules.term_of(bj["n"])
-                lo = rules.term_of(bj["lo"])
+                N1, N2 = rules.term_of(bi["n"], sc_), rules.term_of(bj["n"], sc_)
+                lo = rules.term_of(bj["lo"], sc_)
                 if N1 != N2:
                     ok, why = False, f"outer bound {tm.show(N1)} and inner bound {tm.show(N2)} differ"
                 elif lo != tm.add(tm.sym(i), tm.ONE):
@@ -95,6 +95,15 @@ def run(ctx):
     ge = prog.method(ci, "get_EECC")
     cs = prog.method(ci, "compute_scores")
     lm = prog.method(ci, "limited_maximal_cliques")
+    # roles -> the names the rules below use (C, EC, ord, r): taken from compute_scores' signature and from the
+    # arguments of its first call in get_EECC, so that renaming a local in the repository changes nothing here
+    ROLES = ["C", "EC", "ord", "r", "indexes_score0"]
+    if len(cs.params) >= 6:
+        rules.rename_roles(cs, dict(zip(cs.params[1:6], ROLES)))
+    first_call = next((n for n in astx.walk_fn(ge.node) if isinstance(n, ast.Call) and txt(n.func) == "self.compute_scores" and len(n.args) == 5
+                       and all(isinstance(a_, ast.Name) for a_ in n.args)), None)
+    if first_call is not None:
+        rules.rename_roles(ge, dict(zip([a_.id for a_ in first_call.args], ROLES)))
     sc = Scope(ge.node)
     par = sc.parents
     cfg = CFG(ge.node)
@@ -213,73 +222,88 @@ def run(ctx):
                 if isinstance(n, ast.Call) and isinstance(n.func, ast.Attribute) and n.func.attr in ("add_edge", "add_edges_from") and "self" in txt(n.func.value):
                     o.violated(f, n, "edges are added to the working graph during covering")
 
+    # ---- limited_maximal_cliques: names are discovered, not assumed
+    scl = Scope(lm.node)
+    parl = scl.parents
+    fcs = [s_ for s_ in astx.walk_fn(lm.node) if isinstance(s_, (ast.Assign, ast.AnnAssign)) and s_.value is not None and txt(s_.value) == "self.find_cliques()"]
+    Cn = txt(fcs[0].targets[0] if isinstance(fcs[0], ast.Assign) else fcs[0].target) if len(fcs) == 1 else None
+    cl_loops = [s_ for s_ in lm.body if isinstance(s_, ast.For) and Cn and txt(scl.resolve(s_.iter, keep=[Cn])) in (f"range(len({Cn}))", f"range(0, len({Cn}))")]
+    combs = [n for n in astx.walk_fn(lm.node) if isinstance(n, ast.Call) and prog.external(lm.module, n.func) == "itertools.combinations"]
+    big = None   # canonical condition "this clique exceeds m0"
     with ctx.obligation("C09.3", "size bound: returned cliques passed `not size > m0` or are m0-subsets; decomposed cliques are excluded", floor=3) as o:
-        scl = Scope(lm.node)
-        parl = scl.parents
-        ifs = [n for n in astx.walk_fn(lm.node) if isinstance(n, ast.If) and "self._m0" in txt(scl.resolve(n.test))]
-        combs = [n for n in astx.walk_fn(lm.node) if isinstance(n, ast.Call) and prog.external(lm.module, n.func) == "itertools.combinations"]
-        if len(ifs) != 1 or len(combs) != 1:
+        if Cn is None or len(cl_loops) != 1 or len(combs) != 1 or not parl.inside(combs[0], cl_loops[0]):
             o.undecided("size guard / decomposition not found in limited_maximal_cliques", lm)
         else:
-            g = ifs[0]
-            r = rules.compare_with_pivot(scl.resolve(g.test), lambda x: match(pat("len(C[$c])"), x) is not None)
-            if r is None or txt(r[1]) != "self._m0":
-                o.undecided(f"size guard `{txt(g.test)}` not recognised", lm, g)
-            elif r[0] != ">":
-                o.violated(lm, g, f"cliques are decomposed when size {r[0]} m0; exactly the cliques LARGER than m0 must be decomposed (cliques of size m0 stay intact)")
-            else:
-                o.holds(lm, g, "decompose iff len(clique) > m0")
+            lp = cl_loops[0]
+            cv = txt(lp.target)
             cb = combs[0]
-            if parl.branch_of(cb, g) != "body":
-                o.violated(lm, cb, "the decomposition is not on the branch of the cliques that exceed m0")
-            elif txt(cb.args[1]) != "self._m0":
-                o.violated(lm, cb, f"sub-cliques of size `{txt(cb.args[1])}` instead of m0: the size bound is exceeded or cliques are needlessly split")
+            keep = [Cn, cv]
+            big = rules.cond_term(f"len({Cn}[{cv}]) > self._m0")
+            got = rules.path_term(parl, scl, cb, upto=lp, keep=keep)
+            where = parl.stmt_of(rules.path_conditions(parl, cb, upto=lp)[0][0]) if rules.path_conditions(parl, cb, upto=lp) else cb
+            if got == big:
+                o.holds(lm, where, "decompose iff len(clique) > m0")
+            elif not tm.has_opaque(got) and tm.leaves(got) <= {Cn, cv, "self._m0", "len()"}:
+                o.violated(lm, where, f"cliques are decomposed when `{tm.show(got)}`; exactly the cliques LARGER than m0 must be decomposed (cliques of size m0 stay intact)")
             else:
+                o.undecided(f"size guard `{tm.show(got)[:120]}` not recognised", lm, where)
+            if len(cb.args) == 2 and txt(scl.resolve(cb.args[1])) == "self._m0":
                 o.holds(lm, cb, "oversized cliques are replaced by their m0-subsets")
-            # index excluded
-            excl = [n for s in g.body for n in ast.walk(s) if isinstance(n, ast.Call) and isinstance(n.func, ast.Attribute) and n.func.attr == "append" and len(n.args) == 1
-                    and isinstance(n.args[0], ast.Name)]
-            keep = [n for n in astx.walk_fn(lm.node) if isinstance(n, ast.BinOp) and isinstance(n.op, ast.Sub) and txt(n.left).startswith("set(range(len(C")]
-            if excl and keep and txt(keep[0].right) == f"set({txt(excl[0].func.value)})":
-                kname = [s for s in lm.body if isinstance(s, ast.Assign) and s.value is keep[0]]
-                filt = [s for s in lm.body if isinstance(s, ast.Assign) and txt(s.targets[0]) == "C" and isinstance(s.value, ast.ListComp) and kname
-                        and txt(s.value.generators[0].iter) == txt(kname[0].targets[0]) and txt(s.value.elt) == f"C[{txt(s.value.generators[0].target)}]"]
-                if filt:
-                    o.holds(lm, filt[0], "the indices of decomposed cliques are removed from the result")
-                else:
-                    o.violated(lm, keep[0], "the computed keep-set is not applied: oversized cliques stay in the result next to their sub-cliques")
+            elif len(cb.args) == 2:
+                o.violated(lm, cb, f"sub-cliques of size `{txt(cb.args[1])}` instead of m0: the size bound is exceeded or cliques are needlessly split")
+            # the index of a decomposed clique is recorded (on the same path) and filtered out afterwards
+            excl = [n for n in ast.walk(lp) if isinstance(n, ast.Call) and isinstance(n.func, ast.Attribute) and n.func.attr in ("append", "add") and len(n.args) == 1
+                    and txt(n.args[0]) == cv and isinstance(n.func.value, ast.Name) and rules.path_term(parl, scl, n, upto=lp, keep=keep) == got]
+            filt = None
+            keepset = None
+            for s_ in lm.body:
+                if isinstance(s_, (ast.Assign, ast.AnnAssign)) and isinstance(s_.value, ast.ListComp) and len(s_.value.generators) == 1 and not s_.value.generators[0].ifs \
+                        and txt(s_.targets[0] if isinstance(s_, ast.Assign) else s_.target) == Cn and txt(s_.value.elt) == f"{Cn}[{txt(s_.value.generators[0].target)}]":
+                    filt = s_
+                    keepset = scl.resolve(s_.value.generators[0].iter, keep=[Cn])
+            if not excl:
+                o.violated(lm, where, "the index of a decomposed clique is not recorded for exclusion: oversized cliques stay in the result (size bound broken, edges covered twice)")
+            elif filt is None:
+                o.violated(lm, excl[0], "the computed keep-set is not applied: oversized cliques stay in the result next to their sub-cliques")
             else:
-                o.violated(lm, g, "the index of a decomposed clique is not recorded for exclusion: oversized cliques stay in the result (size bound broken, edges covered twice)")
+                X = txt(excl[0].func.value)
+                ks = scl.resolve(keepset, keep=[Cn, X])
+                while isinstance(ks, ast.Call) and txt(ks.func) in ("sorted", "list") and len(ks.args) == 1:
+                    ks = ks.args[0]
+                if match(pat(f"set(range(len({Cn}))) - set({X})"), ks) is not None or match(pat(f"set(range(len({Cn}))).difference({X})"), ks) is not None \
+                        or match(pat(f"set(range(len({Cn}))) - {X}"), ks) is not None:
+                    o.holds(lm, filt, "the indices of decomposed cliques are removed from the result")
+                else:
+                    o.undecided(f"keep-set `{txt(ks)[:80]}` not recognised", lm, filt)
 
     with ctx.obligation("C09.4", "members are sorted BEFORE duplicates are removed", floor=2) as o:
-        scl = Scope(lm.node)
-        parl = scl.parents
         dedupes = [n for n in astx.walk_fn(lm.node) if isinstance(n, ast.Call) and txt(n.func) == "set" and n.args and isinstance(n.args[0], (ast.GeneratorExp, ast.ListComp))
                    and txt(n.args[0].elt).startswith("tuple(")]
-        combs = [n for n in astx.walk_fn(lm.node) if isinstance(n, ast.Call) and prog.external(lm.module, n.func) == "itertools.combinations"]
         if len(dedupes) != 1:
             o.undecided("duplicate removal set(tuple(row) ...) not found", lm)
-        elif len(combs) == 1:
+        elif len(combs) == 1 and Cn is not None and len(cl_loops) == 1 and big is not None:
+            lp = cl_loops[0]
+            cv = txt(lp.target)
             cb = combs[0]
-            a0 = cb.args[0]
+            a0 = scl.resolve(cb.args[0], keep=[Cn, cv])
             if isinstance(a0, ast.Call) and txt(a0.func) == "sorted":
                 o.holds(lm, cb, "sub-cliques are combinations of the SORTED member list, hence sorted tuples")
             else:
                 wrapped = [a for a in parl.ancestors(cb) if isinstance(a, ast.Call) and txt(a.func) == "sorted"]
-                later_sort = False
                 o.violated(lm, cb, "sub-cliques are taken from an unsorted member list" + (" (sorting the list of subsets does not sort the subsets)" if wrapped else "") +
                            ": two overlapping oversized cliques contribute (a, b) and (b, a), both survive set(), and that edge is covered twice")
-            # the non-decomposed branch
-            ifs = [n for n in astx.walk_fn(lm.node) if isinstance(n, ast.If) and parl.branch_of(cb, n) is not None]
-            if ifs:
-                other = ifs[0].orelse if parl.branch_of(cb, ifs[0]) == "body" else ifs[0].body
-                srt = [s for s in other if isinstance(s, ast.Assign) and match(pat("C[$c]"), s.targets[0]) is not None and match(pat("sorted(C[$c])"), s.value) is not None]
-                pre = [s for s in lm.body if isinstance(s, ast.For) and lm.body.index(s) < lm.body.index(parl.stmt_of(dedupes[0])) and
-                       any(isinstance(x, ast.Assign) and isinstance(x.value, ast.Call) and txt(x.value.func) == "sorted" for x in ast.walk(s)) and not parl.inside(cb, s)]
-                if srt or pre:
-                    o.holds(lm, (srt or pre)[0], "cliques kept whole are sorted before the de-duplication")
-                else:
-                    o.violated(lm, ifs[0], "cliques kept whole are not sorted before set(): the same clique in two vertex orders survives de-duplication")
+            # the cliques kept whole: Cn[c] = sorted(Cn[c]) on the complementary path, or a sorting pass before the de-duplication
+            small = tm.canon(tm.mk_not(big))
+            srt = [s_ for s_ in ast.walk(lp) if isinstance(s_, ast.Assign) and txt(s_.targets[0]) == f"{Cn}[{cv}]" and txt(scl.resolve(s_.value, keep=[Cn, cv])) == f"sorted({Cn}[{cv}])"
+                   and rules.path_term(parl, scl, s_, upto=lp, keep=[Cn, cv]) in (small, tm.atom_poly(("boolconst", True)))]
+            pre = [s_ for s_ in lm.body if isinstance(s_, ast.For) and s_ is not lp and lm.body.index(s_) < lm.body.index(_top(parl, dedupes[0], lm.node))
+                   and any(isinstance(x, ast.Assign) and isinstance(x.value, ast.Call) and txt(x.value.func) == "sorted" for x in ast.walk(s_))]
+            pre += [s_ for s_ in lm.body if isinstance(s_, (ast.Assign, ast.AnnAssign)) and isinstance(s_.value, ast.ListComp) and txt(s_.value.elt).startswith("sorted(")
+                    and lm.body.index(s_) < lm.body.index(_top(parl, dedupes[0], lm.node)) and lm.body.index(s_) > lm.body.index(lp)]
+            if srt or pre:
+                o.holds(lm, (srt or pre)[0], "cliques kept whole are sorted before the de-duplication")
+            else:
+                o.violated(lm, lp, "cliques kept whole are not sorted before set(): the same clique in two vertex orders survives de-duplication")
 
     with ctx.obligation("C09.5", "score-0 cliques go in intact; the random tie-break is over the largest minimum-score candidates", floor=3) as o:
         scs = Scope(cs.node)
@@ -289,16 +313,21 @@ def run(ctx):
             o.undecided("EC.append in compute_scores not found", cs)
         else:
             a = apps[0]
-            g = [x for x in pcs.ancestors(a) if isinstance(x, ast.If)]
             b = match(pat("C[$c]"), a.args[0])
-            if not g or b is None:
+            lpa = pcs.loops_of(a)
+            if b is None or not lpa:
                 o.undecided("score-0 append not recognised", cs, a)
             else:
                 c = txt(b["c"])
-                if txt(g[0].test) in (f"r[{c}] == 0", f"r[{c}] == 0.0", f"not r[{c}]"):
+                got = rules.path_term(pcs, scs, a, upto=lpa[-1], keep=["r", c])
+                if got in (rules.cond_term(f"r[{c}] == 0"), rules.cond_term(f"not r[{c}]"), rules.cond_term(f"r[{c}] <= 0")):
                     o.holds(cs, a, f"C[{c}] appended whole exactly when its score r[{c}] is 0")
+                elif tm.single_atom(got) == ("boolconst", True):
+                    o.violated(cs, a, "every clique is put in the cover unconditionally, not exactly the ones that share no edge with another clique (score 0)")
+                elif not tm.has_opaque(got):
+                    o.violated(cs, a, f"a clique is put in the cover under `{tm.show(got)[:100]}`, not exactly when it shares no edge with another clique (score 0)")
                 else:
-                    o.violated(cs, g[0], f"a clique is put in the cover under `{txt(g[0].test)}`, not exactly when it shares no edge with another clique (score 0)")
+                    o.undecided("score-0 append condition not understood", cs, a)
         ch = [n for n in astx.walk_fn(ge.node) if isinstance(n, ast.Call) and prog.external(ge.module, n.func) in ("random.choice",)]
         if len(ch) != 1:
             o.undecided("random choice of the candidate not found", ge)
@@ -321,11 +350,22 @@ def run(ctx):
                             o.holds(ge, ch[0], "threshold = max of ord over the minimum-score set")
                         elif match(pat("min(ord[$i] for $i in $src)"), b["m"]) is not None:
                             o.violated(ge, ch[0], "the threshold is the MINIMUM size among the minimum-score candidates")
-                    mx = [n for n in ast.walk(wl) if isinstance(n, ast.If) and rules.compare_with_pivot(n.test, lambda x: txt(x) == mname) is not None]
-                    if mx and rules.compare_with_pivot(mx[0].test, lambda x: txt(x) == mname)[0] == "<":
-                        o.holds(ge, mx[0], f"`{mname}` is the running maximum of ord over the minimum-score set")
-                    elif mx:
-                        o.violated(ge, mx[0], f"`{mname}` is not the maximum size among the minimum-score candidates: `{txt(mx[0].test)}`")
+                    # running maximum:  for idx in S: if ord[idx] > m: m = ord[idx]   (any spelling of the guard)
+                    upd = [n for n in ast.walk(wl) if isinstance(n, ast.Assign) and txt(n.targets[0]) == mname and match(pat("ord[$i]"), n.value) is not None and par.loops_of(n)
+                           and par.loops_of(n)[0] is not wl]
+                    mx = []
+                    if upd and isinstance(b["m"], ast.Name):
+                        ii = txt(match(pat("ord[$i]"), upd[0].value)["i"])
+                        gt = rules.path_term(par, sc, upd[0], upto=par.loops_of(upd[0])[0], keep=[mname, ii, "ord"])
+                        mx = [par.stmt_of(rules.path_conditions(par, upd[0], upto=par.loops_of(upd[0])[0])[0][0])] if rules.path_conditions(par, upd[0], upto=par.loops_of(upd[0])[0]) else [upd[0]]
+                        if gt in (rules.cond_term(f"ord[{ii}] > {mname}"), rules.cond_term(f"ord[{ii}] >= {mname}")):
+                            o.holds(ge, mx[0], f"`{mname}` is the running maximum of ord over the minimum-score set")
+                        elif not tm.has_opaque(gt):
+                            o.violated(ge, mx[0], f"`{mname}` is not the maximum size among the minimum-score candidates: updated when `{tm.show(gt)[:80]}`")
+                        else:
+                            mx = []
+                    if mx:
+                        pass
                     else:
                         # closed form: max_ord = max(ord[idx] for idx in <the minimum-score set>)
                         md = [s_ for s_ in ast.walk(wl) if isinstance(s_, (ast.Assign, ast.AnnAssign)) and txt(s_.targets[0] if isinstance(s_, ast.Assign) else s_.target) == mname]
@@ -390,27 +430,44 @@ def run(ctx):
                     o.holds(cs, w, f"scan index {nvar} runs to the last clique")
                 else:
                     o.violated(cs, w, f"scan stops at `{txt(w.test)}`: the last clique(s) are never compared, an overlapping clique gets score 0 and its shared edge is covered twice")
-                init = [s for s in ast.walk(cs.node) if isinstance(s, ast.Assign) and txt(s.targets[0]) == nvar]
-                pcs = astx.Parents(cs.node)
-                if init and all(astx.const_value(s.value) == 0 for s in init):
+                pw = astx.Parents(cs.node)
+                scs2 = Scope(cs.node)
+                init = [s for s in ast.walk(cs.node) if isinstance(s, (ast.Assign, ast.AnnAssign)) and txt(s.targets[0] if isinstance(s, ast.Assign) else s.target) == nvar
+                        and not pw.inside(s, w)]
+                if init and all(astx.const_value(s.value) == 0 for s in init) and any(pw.loops_of(s) and pw.loops_of(w) and pw.loops_of(s)[0] is pw.loops_of(w)[0] for s in init):
                     o.holds(cs, init[0], f"{nvar} starts at 0")
                 else:
                     o.violated(cs, w, f"scan index `{nvar}` does not start at 0 for every edge")
-                # exits of the scan: only "overlap found" (flag set, then break) or exhaustion
-                pw = astx.Parents(cs.node)
-                for br in [x for x in ast.walk(w) if isinstance(x, (ast.Break, ast.Return))]:
-                    blk = pw.parent(br)
-                    sibs = blk.body if br in getattr(blk, "body", []) else getattr(blk, "orelse", [])
-                    flagged = any(isinstance(x, ast.Assign) and astx.const_value(x.value) == 1 for x in sibs)
-                    found = isinstance(blk, ast.If) and "issubset" in txt(blk.test) and br in blk.body
-                    if not (flagged and found):
-                        o.violated(cs, br, f"the scan over the other cliques can stop early (`{txt(blk.test) if isinstance(blk, ast.If) else 'break'}`) without having compared every clique: an "
-                                           "overlapping clique is overlooked, both get score 0 and their shared edge is covered twice")
-                ifs = [s for s in w.body if isinstance(s, ast.If)]
-                if ifs and isinstance(ifs[0].test, ast.BoolOp) and isinstance(ifs[0].test.op, ast.And):
-                    skip = [v for v in ifs[0].test.values if isinstance(v, ast.Compare) and nvar in astx.names_in(v) and isinstance(v.ops[0], ast.NotEq)]
-                    if not skip:
-                        o.violated(cs, ifs[0], "the clique is compared with itself: every edge counts as overlapping")
+                # exits of the scan: only "overlap found" or exhaustion.  The condition of every break, as a canonical
+                # term, must be  n != c  and  <pair>.issubset(C[n])
+                cvar = txt(pw.loops_of(w)[-1].target) if pw.loops_of(w) else None
+
+                def _found_shape(t):
+                    a_ = tm.single_atom(t)
+                    if a_ is None or a_[0] != "bool" or a_[1] != "And" or len(a_[2]) != 2:
+                        return None
+                    ne = [x for x in a_[2] if (tm.single_atom(x) or ("",))[0] == "cmp" and tm.single_atom(x)[1] == "NotEq"]
+                    sub_ = [x for x in a_[2] if (tm.single_atom(x) or ("",))[0] == "call" and tm.single_atom(x)[1].endswith("issubset")]
+                    if len(ne) == 1 and len(sub_) == 1:
+                        return tm.leaves(ne[0])
+                    if len(sub_) == 1:
+                        return set()
+                    return None
+                brs = [x for x in ast.walk(w) if isinstance(x, (ast.Break, ast.Return))]
+                for br in brs:
+                    t = rules.path_term(pw, scs2, br, upto=w)
+                    shape = _found_shape(t)
+                    if shape is None:
+                        a_ = tm.single_atom(t)
+                        if a_ is not None and a_[0] == "call" and a_[1].endswith("issubset"):
+                            o.violated(cs, br, "the clique is compared with itself: every edge counts as overlapping")
+                        else:
+                            o.violated(cs, br, f"the scan over the other cliques can stop early (`{tm.show(t)[:90]}`) without having compared every clique: an "
+                                               "overlapping clique is overlooked, both get score 0 and their shared edge is covered twice")
+                    elif nvar not in shape:
+                        o.violated(cs, br, "the clique is compared with itself: every edge counts as overlapping")
+                if not brs:
+                    o.undecided("scan loop has no `found` exit", cs, w)
 
 
 def _top(par, node, container):
